@@ -20,16 +20,18 @@ CLAIMS = {
          "(accepted and rejected), plus literal comparison of every location with the specification's.",
          "TLC model checking + spec->code replay + code->spec trace validation"),
  "C14": ("model_checking", "Error model of Gherkin.tla (expected lists derived from the grammar table, stay-in-position, dedupe, limit 11, "
-         "stop mode = limit 1) enumerated over a menu of faulty lines in both modes and replayed; error lists of corpus/generated/noisy traces "
-         "compared as (line, column, kind, ordered expected list, quoted text).", "TLC model checking + spec->code replay + code->spec trace validation"),
+         "stop mode = limit 1): every (position, unexpected kind) pair driven through Parser.match_token; menus of faulty lines in both modes and 2^12 error-limit "
+         "runs enumerated and replayed; error lists of corpus/generated/noisy/limit/look-ahead traces compared as (line, column, kind, ordered expected list, quoted "
+         "text) in both modes; re-used parser/matcher pass.", "TLC model checking + spec->code replay + code->spec trace validation"),
  "C18": ("model_checking", "P_C18_Accepted / P_C18_Partition model-checked over a look-ahead-heavy menu (tag/comment/blank runs before "
          "Examples/Scenario/Rule); delivered tokens of every trace compared one by one (line, type, fields) with the specification's.",
          "TLC model checking + spec->code replay + code->spec trace validation"),
 
  "C02": ("model_checking", "Parser table DERIVED in TLA+ from gherkin.berp (transcription checked against the file) with structural ASSUMEs (determinism, stack discipline); "
-         "functional bisimulation of the derived table with parser.py and the Java/Go/Ruby/C/TypeScript generated parsers (order, hints, productions, expected lists); "
-         "MC_Language decides accept/first-fault equivalence of table and grammar NFA exactly (finite product, all lengths); every (position, kind, look-ahead oracle) driven "
-         "through the real Parser.match_token; all kind sequences <= N through the real Parser.parse; derivation predicate on the builder events of real documents.",
+         "functional bisimulation of the derived table with the Java/Go/Ruby/C/TypeScript generated parsers read as text (order, hints, productions, expected lists) and with "
+         "the Python parser's machine LEARNED through Parser.match_token (every (position, kind, look-ahead oracle): productions, targets, error behaviour; 334/334 transitions); "
+         "MC_Language decides accept/first-fault equivalence of table and grammar NFA exactly (finite product, all lengths); MC_Layering ties the kind level to real text; all "
+         "kind sequences <= N through the real Parser.parse; derivation predicate on the builder events of real documents.",
          "TLC model checking + static bisimulation of 6 generated programs + behaviour replay + trace validation"),
  "C05": ("model_checking", "Complete: MC_Keywords checks completeness/soundness/keyword types for every listed keyword of every dialect matched in every dialect (139,920 cases) "
          "on the spec's matcher with the master table; every keyword instance as a real document (default dialect and via header) validated against the spec incl. the printed "
